@@ -613,9 +613,9 @@ func main() {
 	}
 
 	// 1. every n <= 12 with all 2^n subsets (monitors); a sample to Coq
-	allMax := cfg.Scale(12, 13)
+	allMax := cfg.Scale(12, 15)
 	if cfg.Search {
-		allMax = 14
+		allMax = 16
 	}
 	ra := rng.Fork("all")
 	for n := 1; n <= allMax; n++ {
@@ -627,14 +627,14 @@ func main() {
 				sel[i] = code>>uint(i)&1 == 1
 			}
 			// Coq: all subsets for n <= 3, a few per n beyond
-			c := corr && (n <= 3 || code == total-1 || ra.Chance(cfg.Scale(2, 6), total))
+			c := corr && (n <= 3 || code == total-1 || ra.Chance(cfg.Scale(2, 5), total))
 			runSubset(bk, sel, ra, c, c && (n <= 3 || code%2 == 1), "all_subsets")
 		}
 	}
 
 	// 2. every n <= 65 (quick) / 130 (thorough) with structured and random subsets
 	rs := rng.Fork("structured")
-	upper := cfg.Scale(65, 130)
+	upper := cfg.Scale(65, 200)
 	for n := allMax + 1; n <= upper; n++ {
 		bk := makeBlock(cfg.Seed, n)
 		st := structured(n, rs)
